@@ -585,6 +585,26 @@ def compare_job(ctx, tag, out):
         _, desc, obs = tag
         if out.strip() != obs:
             _disagree(ctx, 'ctor-errors', dict(model=out, implementation=obs, input=desc))
+    elif kind == 'rows':
+        # round 6: the validation ladder of __init__ on raw (ragged) rows: same exception class, or the same stored list bit for bit
+        _, desc, obs = tag
+        t = out.split()
+        mod = (t[0], tuple(t[1:])) if t else ('?', ())
+        if mod != obs:
+            _disagree(ctx, 'rows', dict(model=out[:200], implementation=repr(obs)[:200], input=desc))
+        ctx.count('rows:' + obs[0])
+    elif kind == 'emiss':
+        # round 6: VoxelCollection.emissivities_from_function against the model's stream-threading fold
+        _, desc, (st, arr) = tag
+        t = out.split()
+        if t and t[0] == 'ok':
+            mod = [b2f(x) for x in t[1:]]
+            ok = st == 'ok' and len(mod) == len(arr) and all(close(a, b, 1e-9, 1e-12 * max(1.0, abs(a))) for a, b in zip(mod, arr))
+        else:
+            ok = len(t) == 2 and t[0] == 'err' and t[1] == st
+        if not ok:
+            _disagree(ctx, 'emiss', dict(model=out[:200], implementation=repr((st, arr))[:200], input=desc))
+        ctx.count('emiss:' + st)
     ctx.traces += 1
 
 
@@ -812,6 +832,10 @@ def run(ctx):
     quads_pool = [quad_polygon(rng, k) for k in ('trapezoid', 'rectangle', 'parallelogram', 'kite', 'trapezoid-v', 'rectangle')]
     alias_histories(ctx, jobs, pool[:ctx.n(8, 60)] + quads_pool)
     grid_histories(ctx, jobs, pool + quads_pool)
+
+    # ---- round 6: validation ladder on raw rows; collection-level sampling entry point ------------------------------------------------
+    rows_stream(ctx, jobs, pool)
+    emiss_stream(ctx, jobs, pool, flags)
 
     # ---- run the driver on geometry/grid/find lines -----------------------------------------------------------------------------
     outs = ctx.driver([j[0] for j in jobs])
@@ -1385,6 +1409,107 @@ def grid_histories(ctx, jobs, polys):
         jobs.append(('hist %d %d %s %s' % (-1 if act == 'all' else act, m, fs(ref_vols), toks), ('hist', desc, obs_model_steps[:nmodel])))
 
 
+# ------------------------------------------------------------------------------------------------------
+# round 6: constructor ladder on raw rows; collection-level sampling entry point
+# ------------------------------------------------------------------------------------------------------
+def rows_stream(ctx, jobs, polys):
+    """K `rows`: AxisymmetricVoxel(rows) with ragged / negative rows at random positions against Model.mkVoxelRows
+    (TypeError for a row that is not a pair, ValueError for a negative first entry, the FIRST offending row decides)."""
+    rng = ctx.rng
+    AxisymmetricVoxel = voxmod().AxisymmetricVoxel
+    base = polys or [[(1.0, 0.0), (2.0, 0.0), (2.0, 1.0)]]
+    for it in range(ctx.n(80, 3000)):
+        vs = rng.choice(base)
+        rows = [[float(a), float(b)] for a, b in vs]
+        muts = []
+        if rng.random() < 0.15:
+            rows = rows[:rng.randint(0, 2)]
+            muts.append('short')
+        for _ in range(rng.choice([0, 1, 1, 2, 3])):
+            if not rows:
+                break
+            i = rng.randrange(len(rows))
+            m = rng.choice(['len1', 'len3', 'len0', 'neg', 'neg', 'negzero', 'tiny-neg'])
+            if m == 'len1':
+                rows[i] = rows[i][:1]
+            elif m == 'len3':
+                rows[i] = rows[i] + [rng.uniform(-1, 1)]
+            elif m == 'len0':
+                rows[i] = []
+            elif m == 'neg' and rows[i]:
+                rows[i][0] = -abs(rows[i][0]) - rng.choice([0.0, 1.0])
+            elif m == 'tiny-neg' and rows[i]:
+                rows[i][0] = -5e-324
+            elif m == 'negzero' and rows[i] and rows[i][0] == 0.0:
+                rows[i][0] = -0.0
+            muts.append('%s@%d' % (m, i))
+        arg = [tuple(r) if rng.random() < 0.5 else list(r) for r in rows]
+        st, v = call(AxisymmetricVoxel, arg)
+        desc = dict(check='rows', rows=rows, mutations=muts)
+        ctx.case(key=('rows', tuple(tuple(f2b(c) for c in r) for r in rows)),
+                 sample=dict(stream='rows', rows=rows, outcome=st) if it == 3 else None)
+        if st == 'ok':
+            obs = ('ok', tuple(f2b(c) for p in v.vertices for c in (p.x, p.y)))
+        elif st in ('TypeError', 'ValueError'):
+            obs = (st, ())
+        else:
+            ctx.count('rows:other-exception:' + st)        # e.g. raysect's triangulation refusing a damaged outline: not the ladder
+            continue
+        toks = ['rows']
+        for r in rows:
+            toks.append(str(len(r)))
+            toks += [f2b(c) for c in r]
+        jobs.append((' '.join(toks), ('rows', desc, obs)))
+
+
+def emiss_stream(ctx, jobs, polys, flags):
+    """K `emiss`: ToroidalVoxelGrid.emissivities_from_function on a seeded raysect RNG against Model.emissivities on the same
+    uniform stream; S: equals the per-voxel calls made in collection order from the same RNG state, exact for constants."""
+    from raysect.core.math.random import seed
+    rng = ctx.rng
+    if not flags['clamped'] or not flags['scale_is_total']:
+        ctx.count('emiss:skipped-(lookup-not-clamped)')      # an unclamped lookup must not be run in-process
+        return
+    ToroidalVoxelGrid = voxmod().ToroidalVoxelGrid
+    for it in range(ctx.n(14, 400)):
+        m = rng.choice([0, 1, 2, 3, 5]) if it else 0
+        cells = [rng.choice(polys) for _ in range(m)] if polys else []
+        n = rng.choice([0, 1, 3, 10]) if it % 4 else 2
+        coef = [rng.uniform(-2, 2) for _ in range(4)] if it % 3 else [rng.uniform(-2, 2), 0.0, 0.0, 0.0]
+        seed_ = rng.randrange(1, 2 ** 62)
+        st, grid = call(ToroidalVoxelGrid, cells)
+        if st != 'ok':
+            ctx.count('emiss:grid-not-constructed:' + st)
+            continue
+        vox = []
+        for v in grid:
+            verts = [(p.x, p.y) for p in v.vertices]
+            vox.append((verts, impl_triangles(verts)))
+        us = uniform_stream(seed_, 3 * n * len(cells) + 3)
+        desc = dict(check='emiss', cells=cells, seed=seed_, grid_samples=n, coef=coef)
+        ctx.case(key=('emiss', tuple(f2b(c) for cell in cells for c in flat(cell)), seed_, n),
+                 sample=dict(stream='emiss', cells=len(cells), seed=seed_, grid_samples=n) if it == 2 else None)
+        seed(seed_)
+        st, arr = call(grid.emissivities_from_function, Recorder(coef), n)
+        arr = [float(x) for x in arr] if st == 'ok' else arr
+        if st == 'ok':
+            seed(seed_)
+            per = [call(v.emissivity_from_function, Recorder(coef), n) for v in grid]
+            if [p[0] for p in per] != ['ok'] * len(cells) or [f2b(p[1]) for p in per] != [f2b(a) for a in arr]:
+                ctx.fail('C17:emissivities_from_function:differs-from-per-voxel-calls',
+                         'collection call %r, per-voxel calls from the same RNG state %r' % (arr[:4], per[:4]), desc)
+            if coef[1:] == [0.0, 0.0, 0.0] and not all(close(a, coef[0], 1e-14) for a in arr):
+                ctx.fail('C17:emissivities_from_function:not-exact-for-constants', 'constant %r estimated as %r' % (coef[0], arr[:6]), desc)
+        elif not (st == 'ZeroDivisionError' and n == 0 and cells):
+            ctx.fail('C17:emissivities_from_function:raised', 'raised %s: %s' % (st, arr), desc)
+            continue
+        toks = ['emiss', str(n), fs(coef), str(len(vox))]
+        for verts, tris in vox:
+            toks += [str(len(verts)), fs(flat(verts)), str(len(tris))] + [str(i) for t in tris for i in t]
+        toks += [str(len(us)), fs(us)]
+        jobs.append((' '.join(x for x in toks if x != ''), ('emiss', desc, (st, arr))))
+
+
 def replay(ctx, path):
     r = json.load(open(path))
     rp = r.get('replay') or {}
@@ -1434,6 +1559,17 @@ def replay(ctx, path):
         print('total_volume after each step:', tv, 'sum of all voxel volumes:', ref)
         if not all(close(t, ref, 1e-12) for t in tv):
             ctx.fail('C17:total_volume:depends-on-active-state', 'total_volume %r, sum of all voxel volumes %r after %r' % (tv, ref, ops), rp)
+    elif kind == 'emiss':
+        from raysect.core.math.random import seed
+        cells = [[tuple(p) for p in c] for c in rp['cells']]
+        grid = voxmod().ToroidalVoxelGrid(cells)
+        seed(rp['seed'])
+        st, arr = call(grid.emissivities_from_function, Recorder(rp['coef']), rp['grid_samples'])
+        seed(rp['seed'])
+        per = [call(v.emissivity_from_function, Recorder(rp['coef']), rp['grid_samples']) for v in grid]
+        print('collection call:', st, list(arr) if st == 'ok' else arr, '\nper-voxel calls:', per)
+        if st != 'ok' or [f2b(p[1]) for p in per if p[0] == 'ok'] != [f2b(a) for a in arr]:
+            ctx.fail('C17:emissivities_from_function:differs-from-per-voxel-calls', 'collection %r, per voxel %r' % ((st, arr), per), rp)
     elif kind == 'quad':
         from raysect.core.math.random import seed
         w = [tuple(p) for p in rp['vertices']]
